@@ -20,6 +20,8 @@ CatAll ==
        [] d = "b:gaps"  -> B("gaps", "C", {"coverage"}, TRUE, FALSE)
        [] d = "b:poor"  -> B("poor", "C", {}, TRUE, TRUE)
        [] d = "b:east"  -> B("east", "E", {}, TRUE, FALSE)
+       [] d = "b:long"  -> B("long", "C", {"length"}, TRUE, FALSE)
+       [] d = "b:neggas" -> B("neggas", "C", {"negative"}, TRUE, FALSE)
        [] d = "b:netpoor" -> B("netpoor", "C", {}, TRUE, TRUE)      \* a net-exporting meter (mean usage below zero), usage unrelated to weather
        [] d = "r:wyear:orig"     -> R("wyear", "C", "orig")
        [] d = "r:wyear:x3"       -> R("wyear", "C", "x3")
